@@ -183,4 +183,18 @@ LhClause(data, o) ==
        ELSE FirstBad([i \in 1..6 |->
                 IF i <= 3 THEN Ok(AngleIs(bx, ox(i), o.x[i + 1]), "LhAngle" \o Fp16Class(ox(i)) \o "Offset")
                 ELSE Ok(AngleIs(by, oy(i - 3), o.y[i - 2]), "LhAngle" \o Fp16Class(oy(i - 3)) \o "Offset")])
+
+\* ------------------------------------------------------------------ packets of a stream
+(* "Received range reports and lighthouse angle-stream packets decode to exactly the anchor
+   distances and per-sensor sweep angles the device encoded ... for all range/angle stream
+   packets".  What a packet decodes to is the object the library hands to the receiver
+   (LocalizationPacket.data).  Receivers of a stream keep these objects (queue to another thread,
+   last packet per base station) and read them after further packets have arrived, so a packet
+   of a stream is observed twice:  o = the decoded values at delivery,  late = the values the
+   SAME delivered object shows after the rest of the stream was received.  Both are judged by the
+   clause of THIS packet's bytes -- nothing new is demanded, the same clause is applied to the
+   value the receiver still holds.  A failure that shows only later is named "Kept" + clause.  *)
+Kept(now, later) == IF now # "ok" THEN now ELSE IF later = "ok" THEN "ok" ELSE "Kept" \o later
+LhKeptClause(data, o, late) == Kept(LhClause(data, o), LhClause(data, late))
+RangeKeptClause(data, o, late) == Kept(RangeClause(data, o), RangeClause(data, late))
 =============================================================================
